@@ -38,6 +38,7 @@ M = [
  ("sms_eq_ignores_flag", "src/source_map_source.rs", "      && self.remove_original_source == other.remove_original_source\n", "", {"C14": "V"}),
  ("sms_hash_includes_name", "src/source_map_source.rs", "    self.remove_original_source.hash(state);\n", "    self.remove_original_source.hash(state);\n    self.name.len().hash(state);\n", {"C14": "P2"}),
  ("rope_bound_plus1", "src/rope.rs", "    Bound::Included(&end) => Some(end.saturating_add(1)),", "    Bound::Included(&end) => Some(end + 1),", {"C17": "V"}),
+ ("rope_empty_guard_removed", "src/rope.rs", "        // a rope built from no (non-empty) pieces has no chunk to index\n        if data.is_empty() {\n          return Ok(Rope::new());\n        }\n", "", {"C19": "V"}),
  # ---- benign ----
  ("benign_rename_local", "src/encoder.rs", "let mut digit = num & 0b11111;\n    num >>= 5;\n    if num > 0 {\n      digit |= 1 << 5;\n    }\n    out.push(B64_CHARS[digit as usize]);",
   "let mut dg = num & 0b11111;\n    num >>= 5;\n    if num > 0 {\n      dg |= 1 << 5;\n    }\n    out.push(B64_CHARS[dg as usize]);", {"C12": "P", "C17": "P"}),
